@@ -43,7 +43,7 @@ from vlib import env
 THEOREMS = [
     "moveL_inverse", "rename_undo", "rollback_snoc", "rollback_invariant", "rollback_restores",
     "apply_phase12_failure_restores", "get_runDeletions", "metadata_agrees",
-    "deletions_first_witness", "clobber_witness",
+    "deletions_first_witness", "clobber_witness", "finalize_discards_limbo",
 ]
 T1_THEOREMS = ["apply_order_bzr", "apply_order_git"]
 RULE = ("scenario = (format, random tree state A, random edits -> state B, local edits, backups flag); "
@@ -128,9 +128,11 @@ def visible(snap, ctl):
 # fault-injecting mover
 
 class Plan:
-    def __init__(self, root, ctl, fault1=None, fault2=None, base=False):
+    def __init__(self, root, ctl, fault1=None, fault2=None, base=False, fault3=None, after=False):
         self.root, self.ctl = root, ctl
         self.fault1, self.fault2 = fault1, fault2
+        self.fault3, self.after3 = fault3, after   # fault at the k-th content creation (before / after it)
+        self.ncreate = 0
         self.exc = InjectedBase if base else Injected
         self.n = 0
         self.log = []          # (kind, relfrom, relto, target_existed, error-or-None)
@@ -232,6 +234,30 @@ def _install():
     bt._FileMover = FaultyMover
     bbt._FileMover = FaultyMover
     bgt._FileMover = FaultyMover
+    # content creation in limbo while a transform is being built
+    for mod in (bbt, bgt):
+        cls = mod.DiskTreeTransform
+        for name in ("create_file", "create_directory", "create_symlink"):
+            real = getattr(cls, name)
+            if getattr(real, "_verif_wrapped", False):
+                continue
+
+            def make(real):
+                def wrapper(self, *a, **kw):
+                    P = _plan
+                    if P is None:
+                        return real(self, *a, **kw)
+                    k = P.ncreate
+                    P.ncreate += 1
+                    if k == P.fault3 and not P.after3:
+                        raise P.exc("injected before creation %d" % k)
+                    r = real(self, *a, **kw)
+                    if k == P.fault3 and P.after3:
+                        raise P.exc("injected after creation %d" % k)
+                    return r
+                wrapper._verif_wrapped = True
+                return wrapper
+            setattr(cls, name, make(real))
 
 
 # --------------------------------------------------------------------------
@@ -373,14 +399,14 @@ def versioned(root):
     return out
 
 
-def run_command(sc, fault1=None, fault2=None, base_exc=False):
+def run_command(sc, fault1=None, fault2=None, base_exc=False, fault3=None, after3=False):
     """copy the scenario tree, run `revert -r1` with the given faults"""
     global _plan
     from breezy.workingtree import WorkingTree
     copy = env.fresh_dir("c13")
     os.rmdir(copy)
     shutil.copytree(sc["base"], copy, symlinks=True)
-    _plan = P = Plan(copy, sc["ctl"], fault1, fault2, base_exc)
+    _plan = P = Plan(copy, sc["ctl"], fault1, fault2, base_exc, fault3, after3)
     wt = WorkingTree.open(copy)
     pre_visible = visible(snapshot(copy, sc["ctl"]), sc["ctl"])
     pre_versioned = versioned(copy)
@@ -545,6 +571,26 @@ def check_case(ctx, sc, ok_run, fault1, fault2, base_exc):
     return case, line, impl
 
 
+def check_creation_fault(ctx, sc, k, after, base_exc):
+    """fault at the k-th content creation while the transform is being built:
+    nothing may change (finalize discards the limbo area)"""
+    res = run_command(sc, base_exc=base_exc, fault3=k, after3=after)
+    case = dict(scenario=sc["seed"], fmt=sc["fmt"], fault3=k, after3=after, base_exc=base_exc)
+    ctx.case(dict(case, pre=canon_fs(res["pre_visible"])))
+    ctx.count("fault:creation")
+    if res["raised"] != "INJECTED":
+        ctx.violation(case, "fault at content creation %d did not propagate (raised=%r)" % (k, res["raised"]))
+    if res["post_visible"] != res["pre_visible"]:
+        diff = sorted(set(res["post_visible"].items()) ^ set(res["pre_visible"].items()))[:4]
+        ctx.violation(case, "a failed content creation left the tree changed: %r" % (diff,))
+    if res["post_versioned"] != res["pre_versioned"]:
+        ctx.violation(case, "a failed content creation left the versioned paths changed")
+    left = [p for p in res["post"] if p.startswith(sc["ctl"] + "/limbo") or p.startswith(sc["ctl"] + "/pending-deletion")]
+    if left:
+        ctx.violation(case, "limbo / pending-deletion area not cleaned up after a failed content creation: %r" % left[:4])
+    shutil.rmtree(res["root"], ignore_errors=True)
+
+
 def _scenarios(ctx, n):
     fmts = ["2a", "git"]
     out = []
@@ -563,7 +609,7 @@ def _scenarios(ctx, n):
 
 def run(ctx, nscen=None, maxfaults=None):
     _install()
-    nscen = nscen or ctx.pick(70, 400)
+    nscen = nscen or ctx.pick(50, 400)
     maxfaults = maxfaults or ctx.pick(40, 200)
     cases, lines, impls = [], [], []
     for sc in _scenarios(ctx, nscen):
@@ -618,6 +664,9 @@ def run(ctx, nscen=None, maxfaults=None):
             r = check_case(ctx, sc, ok, f1, f2, base_exc=ctx.rng.random() < 0.5)
             if r:
                 cases.append(r[0]); lines.append(r[1]); impls.append(r[2])
+        ctx.count("creations:%d" % min(P.ncreate, 8))
+        for k in range(min(P.ncreate, ctx.pick(6, 40))):
+            check_creation_fault(ctx, sc, k, after=ctx.rng.random() < 0.5, base_exc=ctx.rng.random() < 0.5)
         shutil.rmtree(ok["root"], ignore_errors=True)
         shutil.rmtree(sc["base"], ignore_errors=True)
     if lines:
@@ -632,6 +681,9 @@ def replay(ctx, case):
     _install()
     sc = build_scenario(tuple(case["scenario"]))
     ok = run_command(sc)
+    if case.get("fault3") is not None:
+        check_creation_fault(ctx, sc, case["fault3"], case.get("after3", False), case.get("base_exc", False))
+        return dict(case=case, oracle_failures=[v["what"] for v in ctx.violations])
     r = check_case(ctx, sc, ok, case.get("fault1"), case.get("fault2"), case.get("base_exc", False))
     m = ctx.model([r[1]])[0]
     return dict(case=r[0], impl=r[2], model=m, agree=(m == r[2]), oracle_failures=[v["what"] for v in ctx.violations])
